@@ -118,7 +118,20 @@ static void caseC12(uint64_t, vh::Rng& g)
 		else if (op == 12) { copy.reset(new Aut(*a)); copyShadow = s; trace += "copy;"; R->count("view-on-copy"); }
 		else if (op == 13 && copy) { std::swap(a, copy); std::swap(s, copyShadow); trace += "swap-with-copy;"; }
 		else if (op == 14) { Aut tmp(*a); *a = tmp; trace += "self-roundtrip;"; }
+		else if (op == 15)
+		{	// copy, then at once one mutating call on either side — no read in between (reads may un-share storage)
+			copy.reset(new Aut(*a)); copyShadow = s; trace += "copy;"; R->count("view-on-copy"); R->count("copy-then-mutate");
+			bool onCopy = g.chance(1, 3); Aut& t = onCopy ? *copy : *a; RTA& ts = onCopy ? copyShadow : s; const char* side = onCopy ? "(copy)" : "";
+			switch (g.below(4))
+			{
+				case 0: t.Clear(); ts = RTA(); trace += std::string("clear") + side + ";"; R->count("clear"); break;
+				case 1: t.EraseFinalStates(); ts.fin.clear(); trace += std::string("erasefinal") + side + ";"; R->count("erase-final-states"); break;
+				case 2: { St q = g.below(U + 1); t.SetStateFinal(q); ts.fin.insert(q); trace += std::string("final") + side + " " + vh::str(q) + ";"; break; }
+				default: { RRule r = mkRule(); std::vector<size_t> ch(r.ch.begin(), r.ch.end()); t.AddTransition(ch, r.sym, r.par); ts.rules.insert(r); trace += std::string("add") + side + " " + vh::str(r.sym) + "(" + vh::str(r.ch.size()) + ")->" + vh::str(r.par) + ";"; break; }
+			}
+		}
 		else continue;
+		if (st + 1 < L && g.chance(1, 4)) { R->count("steps-without-read"); continue; }   // several mutating calls between two reads
 		R->desc(trace); R->phase("read views");
 		std::string why;
 		if (!readEq(*a, s, U + 1, &g, why, true)) { R->violation("C12/" + why.substr(0, why.find(' ')) + "/" + (why.find("yields") != std::string::npos ? "content" : "answer"), why + " after: " + trace); return; }
